@@ -148,7 +148,8 @@ PROPS["C19"] = dict(
           "WAITING retry carries the failed trial's params/distributions/user attrs, retry_history = history ++ "
           "[number], failed_trial = first number of the chain. All obligations discharged by z3.",
     note="storage behind the assumed BaseStorage/heartbeat interface (SQL stale-id query and SQL compare-and-set "
-         "assumed); at most one winner per trial across workers follows from the CAS contract plus atomicity",
+         "assumed; the stale-id query and a whole sweep are additionally checked by the BOUNDED stand-in bounded.heartbeat_lattice on "
+         "sqlite, labelled bounded, not proved); at most one winner per trial across workers follows from the CAS contract plus atomicity",
     assumptions=LIB_ASSUMPTIONS + [
         "RDBStorage._get_stale_trial_ids returns ids of RUNNING trials with an expired heartbeat (SQL, assumed; BOUNDED stand-in "
         "bounded.heartbeat_lattice on sqlite, labelled bounded, not proved)",
